@@ -162,11 +162,85 @@ def check_format_model(seed, cases=300):
             if struct.unpack(fmt, struct.pack(fmt, x))[0] != x:
                 raise SelfCheckError('struct')
         n += 1
+    for _ in range(40):
+        data = bytes(rnd.randrange(256) for _ in range(rnd.randint(0, 16)))
+        want = [c == '1' for c in ''.join('{:08b}'.format(b) for b in data)]
+        if models.bits_of(data) != want:
+            raise SelfCheckError('bits_of(%r)' % data)
+        n += 1
     return n
+
+
+def check_date_model(seed, cases=400):
+    """the component model of datetime (strftime token, strptime of it in the same or another fixed-width format, two-digit-year
+    window, day-of-month validity, int() of token fragments) against CPython"""
+    import datetime
+    rnd = random.Random(seed)
+    fmts = ['%y%m%d%H%M%S', '%y%m%d', '%Y%m%d', '%m%d', '%H%M%S', '%Y-%m-%d %H:%M:%S', '%d/%m/%y', '%y%m', '%m%d%y']
+    box = {'n': 0}
+
+    def h():
+        for _ in range(cases):
+            f = rnd2.choice(fmts)
+            y = rnd2.choice([1969, 1970, 1999, 2000, 2001, 2024, 2067, 2068, rnd2.randint(1969, 2068), rnd2.randint(1000, 9999)])
+            mth = rnd2.randint(1, 12)
+            day = rnd2.choice([1, 28, 29, 30, 31, rnd2.randint(1, 28)])
+            try:
+                real = datetime.datetime(y, mth, day, rnd2.randint(0, 23), rnd2.randint(0, 59), rnd2.randint(0, 59))
+                ok = True
+            except ValueError:
+                ok = False
+            valid = models._day_ok(y, mth, day)
+            if bool(valid) != ok:
+                raise SelfCheckError('day validity of %d-%d-%d: model %s, python %s' % (y, mth, day, bool(valid), ok))
+            if not ok:
+                continue
+            d = models.SymDate('d', comps=dict(zip(models._COMPS, [real.year, real.month, real.day, real.hour, real.minute, real.second])))
+            tok = d.strftime(f)
+            txt = concretize(tok, core.ev)
+            if txt != real.strftime(f):
+                raise SelfCheckError('strftime %r of %s: model %r' % (f, real, txt))
+            for g in (f, rnd2.choice(fmts)):
+                try:
+                    want = datetime.datetime.strptime(txt, g)
+                except ValueError:
+                    want = None
+                try:
+                    got = models.DateTimeLike.strptime(tok, g)
+                    got = got.concrete(core.ev)
+                except ValueError:
+                    got = None
+                except core.Unsupported:
+                    continue
+                if got != want:
+                    raise SelfCheckError('strptime(%r, %r): model %s, python %s' % (txt, g, got, want))
+                box['n'] += 1
+            lay = models.date_layout(f)
+            if all(dd for _, _, dd, _ in lay):
+                if core.ev(models.sh_int(tok)) != int(txt):
+                    raise SelfCheckError('int of date token %r' % txt)
+                a, w = lay[0][0], lay[0][1]
+                if core.ev(models.sh_int(tok[a:a + w])) != int(txt[a:a + w]):
+                    raise SelfCheckError('int of date token fragment %r' % txt[a:a + w])
+                box['n'] += 2
+    rnd2 = random.Random(seed)
+    state = rnd2.getstate()
+
+    def h2():
+        rnd2.setstate(state)
+        box['n'] = 0
+        h()
+    ex = core.Explorer(deadline_s=60, stop_on_violation=True)
+    ex.explore(h2)
+    for kind, info in ex.results:
+        if kind != 'ok':
+            raise SelfCheckError('date self-check path ended with %s: %s' % (kind, info))
+    return box['n']
 
 
 def run(seed=0):
     out = {}
+    out['date_model_comparisons'] = check_date_model(seed)
     out['int_model_strings'] = check_int_model()
     out['format_cases'] = check_format_model(seed)
     out['rope_op_comparisons'] = check_rope_ops(seed)
